@@ -63,6 +63,7 @@ type c12World struct {
 	owner   map[int]int
 	fstate  map[int]string // empty full junk gone
 	nfid    int
+	idem    bool // Remove of a missing lock file is answered with success (s3/gs/azure-like backend)
 }
 
 func (w *c12World) register(name string, pid int, st string) int {
@@ -189,6 +190,9 @@ func (b *c12Backend) Remove(ctx context.Context, h backend.Handle) error {
 		return backoff.Permanent(errC12)
 	}
 	err := b.Backend.Remove(ctx, h)
+	if p != nil && err != nil && p.w.idem && b.Backend.IsNotExist(err) {
+		err = nil
+	}
 	if p != nil && err == nil {
 		p.w.mu.Lock()
 		if f, ok := p.w.names[h.Name]; ok {
@@ -297,6 +301,12 @@ func (s *c12Sched) await(p int) *c12Event {
 					}
 				case "refresh":
 					s.status[p] = "hold"
+				case "forced":
+					if ev.err == nil {
+						s.status[p] = "hold"
+					} else {
+						s.status[p], s.belief[p] = "done", "BErr"
+					}
 				case "unlock":
 					s.status[p], s.belief[p] = "done", "BReleased"
 				}
@@ -671,6 +681,95 @@ func c12RunWorld(c *vctx, slots []*c12Slot, lockDir string, excl []bool, policy 
 	return nil
 }
 
+// forced refresh of a stale holder X (pid 0) raced by Y (pid 1): before X's request number cut, X's old lock
+// file is removed (what `unlock` does to a stale lock) and Y runs newLock to completion.
+func c12ForcedWorld(c *vctx, slots []*c12Slot, lockDir string, exclX, exclY bool, cut int, wait time.Duration) error {
+	w := &c12World{events: make(chan c12Event), lockDir: lockDir, names: map[string]int{}, owner: map[int]int{}, fstate: map[int]string{}, idem: true}
+	s := &c12Sched{c: c, w: w, slots: slots, wait: wait,
+		procs: make([]*c12Proc, 2), status: make([]string, 2), pend: make([]c12Event, 2), mode: make([]string, 2),
+		belief: make([]string, 2), lastLd: make([]string, 2), lastD: make([]c12Decision, 2)}
+	c12ClearLocks(lockDir)
+	for p, ex := range []bool{exclX, exclY} {
+		s.procs[p] = &c12Proc{pid: p, excl: ex, w: w, grant: make(chan c12Decision)}
+		s.status[p], s.belief[p] = "idle", "BBusy"
+		slots[p].proc.Store(s.procs[p])
+	}
+	runAll := func(p int) {
+		for i := 0; i < 100 && s.status[p] == "pending" && !s.hung; i++ {
+			s.grant(p, c12Decision{})
+		}
+	}
+	s.start(0)
+	runAll(0)
+	old1, old2, saveok, raced := false, false, false, false
+	if s.status[0] == "hold" && !s.hung {
+		oldFid := 0 // X's lock file is the first one of this world
+		s.mode[0] = "forced"
+		s.human = append(s.human, "forced-refresh0")
+		s.spawn(0, func(pr *c12Proc) error { return pr.lock.RefreshStale(context.Background()) })
+		lists := 0
+		for k := 0; k < 20 && s.status[0] == "pending" && !s.hung; k++ {
+			if k == cut {
+				raced = true
+				s.staleRemove(oldFid)
+				s.start(1)
+				runAll(1)
+			}
+			op := s.pend[0].op
+			present := func() bool {
+				w.mu.Lock()
+				defer w.mu.Unlock()
+				return w.fstate[oldFid] != "gone"
+			}
+			switch op {
+			case "List":
+				lists++
+				if lists == 1 {
+					old1 = present()
+				} else if lists == 2 {
+					old2 = present()
+				}
+			case "Save":
+				saveok = true
+			}
+			s.grant(0, c12Decision{})
+		}
+	}
+	xok := s.status[0] == "hold" && s.mode[0] == "forced"
+	yok := s.status[1] == "hold"
+	for p := 0; p < 2; p++ {
+		s.procs[p].crashed.Store(true)
+		if s.status[p] == "pending" {
+			select {
+			case s.procs[p].grant <- c12Decision{crash: true}:
+			case <-time.After(5 * time.Second):
+			}
+		}
+	}
+	done := make(chan struct{})
+	go func() { s.wg.Wait(); close(done) }()
+	select {
+	case <-done:
+	case <-time.After(30 * time.Second):
+		return fmt.Errorf("C12: lockers did not terminate (forced refresh world)")
+	}
+	for p := 0; p < 2; p++ {
+		slots[p].proc.Store(nil)
+	}
+	if s.hung {
+		go func() {
+			for range w.events {
+			}
+		}()
+		return fmt.Errorf("C12: scheduler lost track of a locker: %s", strings.Join(s.human, " "))
+	}
+	term := fmt.Sprintf("CForced (mkForced %s %s %s %s %s %s %s)", coqBool(exclX), coqBool(exclY), coqBool(old1), coqBool(saveok), coqBool(old2), coqBool(xok), coqBool(yok))
+	c.Case("forced-refresh-race", raced && (exclX || exclY), len(s.human), term,
+		fmt.Sprintf("X excl=%v, Y excl=%v, old lock removed + Y newLock before X's request #%d: sched=[%s] -> old-at-check1=%v replacement-saved=%v old-at-check2=%v X-continues=%v Y-acquired=%v",
+			exclX, exclY, cut, strings.Join(s.human, " "), old1, saveok, old2, xok, yok))
+	return nil
+}
+
 func c12DeadPid() int {
 	cmd := exec.Command("true")
 	if err := cmd.Run(); err != nil || cmd.Process == nil {
@@ -790,6 +889,14 @@ func engineC12(c *vctx) error {
 		}
 		if err := c12RunWorld(c, slots, lockDir, excl, "rand", rng, wait); err != nil {
 			return err
+		}
+	}
+	// forced refresh of a stale lock raced by unlock + newLock, on a backend with idempotent Remove
+	for _, ex := range [][2]bool{{false, true}, {true, false}, {true, true}, {false, false}} {
+		for cut := 0; cut <= 5; cut++ {
+			if err := c12ForcedWorld(c, slots, lockDir, ex[0], ex[1], cut, wait); err != nil {
+				return err
+			}
 		}
 	}
 	// RemoveStaleLocks
